@@ -209,3 +209,38 @@ def bare_stash_after_unreported_human_edit():
         return _final(s)
     finally:
         s.destroy()
+
+
+def person_replaces_ai_token_then_reset_soft():
+    """D29: an AI session appends a token to a line written by a person, commit; the person replaces that token with an own
+    one (no checkpoint); `git reset --soft HEAD~1`; commit => the line, now entirely written by the person, is reported AI."""
+    s = _mk("d29", files=1)
+    try:
+        f0 = [s.line("human") for _ in range(5)]
+        s.human_write("f.txt", f0); s.commit_all("init")
+        ai = f0[3] + " tok_by_s2"; s.ledger.record(ai, "S2")
+        s.ai_write("S2", "f.txt", f0[:3] + [ai] + f0[4:]); s.commit_all("ai mod")
+        hum = f0[3] + " tok_by_person"; s.ledger.record(hum, "human")
+        s.human_write("f.txt", f0[:3] + [hum] + f0[4:])
+        s.g("reset", "-q", "--soft", "HEAD~1")
+        return _final(s)
+    finally:
+        s.destroy()
+
+
+def person_replaces_ai_token_commits_then_reset_soft():
+    """D30: an AI session appends a token to a person's line, commit; the person replaces that token with an own one and
+    commits (the note rightly does not list the line); `git reset --soft HEAD~1`; commit => the line is reported AI."""
+    s = _mk("d30", files=1)
+    try:
+        f0 = [s.line("human") for _ in range(5)]
+        s.human_write("f.txt", f0); s.commit_all("init")
+        ai = f0[3] + " tok_by_s2"; s.ledger.record(ai, "S2")
+        s.ai_write("S2", "f.txt", f0[:3] + [ai] + f0[4:]); s.commit_all("ai mod")
+        hum = f0[3] + " tok_by_person"; s.ledger.record(hum, "human")
+        s.human_write("f.txt", f0[:3] + [hum] + f0[4:]); s.commit_all("human mod")
+        s.check_notes("before-reset")
+        s.g("reset", "-q", "--soft", "HEAD~1")
+        return _final(s)
+    finally:
+        s.destroy()
